@@ -84,3 +84,8 @@ func HeaderChan(p []byte) uint32 {
 	}
 	return binary.LittleEndian.Uint32(hb[2:])
 }
+
+// HeaderConn extracts the conn/role field from a payload of at least 16 bytes.
+func HeaderConn(p []byte) uint16 {
+	return uint16(p[0]^0x5c) | uint16(p[1]^0x5c)<<8
+}
